@@ -3,13 +3,43 @@ SPEC = {
     "bins": [
         {"name": "c16", "pkg": "./zz_verif/c16", "run": ".", "shards": {"quick": 1, "thorough": 16}},
     ],
-    "rule": "TODO",
-    "assumptions": COMMON_ASSUME + [],
+    "rule": "case = one rapid-drawn tuple per sub-check. oprf: (suite in 4, mode in 3, key from DeriveKey(seed,info) / GenerateKey(reader) / "
+            "an unmarshalled edge scalar, batch of 1..5 inputs of lengths {0,1,100,1000,random}, info, two explicit blind vectors) plus 2..4 "
+            "single-component alterations in the verifiable modes; dleq: (group, hash, DST, k, A, batch of 1..4 B_i, prover randomness), 2..4 "
+            "alterations and one statement false by construction with up to 11 candidate proofs; dl: (group, G, k, userID, otherInfo, reader), 3..5 "
+            "alterations and up to 8 witness-free proofs; qndleq: (two safe primes from a committed pool of 14, squares g and h, exponent, security "
+            "parameter), 3..5 alterations and one false statement with 26..27 candidate proofs; simot: (group, choice bit, equal-length message pair). "
+            "non-trivial = the evaluated case contains an alteration, a false statement, a degenerate/forged proof, a second blind vector, or an OT "
+            "run with swapped ciphertexts (honest-only evaluations are counted as evaluations but not as non-trivial); distinct by FNV-64 of "
+            "(sub-check, case description, alteration). Alterations that turn out to be the identity, or that only re-encode the same scalars "
+            "(non-canonical aliases, property C09), are counted in their own classes and are not evaluated",
+    "assumptions": COMMON_ASSUME + [
+        "the RFC 9497 reference is written on circl's group API (group law, hash_to_curve, hash_to_field and scalar arithmetic are properties C13/C15/C12); "
+        "what it checks independently is everything oprf and zk/dleq add: context strings, DSTs, transcripts, composites, challenge, POPRF tweak, Finalize hash; "
+        "it is validated at start-up against the 32 official RFC 9497 vectors of the 4 supported suites",
+        "soundness assertions (an altered proof / a proof for a false statement does not verify) hold except with probability <= 2^-120 per case; "
+        "qndleq statements are false by construction because the factorisation of N is known to the harness (committed pool of safe primes)",
+        "zk/qndleq has no way for the verifier to state its security parameter: the check takes 128 (the value of the package's own tests) as the verifier's",
+        "ot/simot draws its scalars and nonces from crypto/rand: only relations that hold for every draw are asserted",
+    ],
     "budget": {"quick": 900, "thorough": 3600},
 }
 
 MANIFEST = {
-    "technique": "TODO",
-    "text": "TODO",
-    "note": "TODO",
+    "technique": "property-based testing (rapid) with an RFC 9497 reference (protocol logic re-implemented from the RFC text, self-tested on the official "
+                 "vectors), differential verdicts against the reference verifier, metamorphic relations (blind independence, FullEvaluate, VerifyFinalize), "
+                 "single-component tamper enumeration, and adversarial proof construction (false-by-construction statements, degenerate and "
+                 "prover-chosen-parameter proofs, coordinated alterations) for zk/dleq, zk/dl, zk/qndleq; round-driven relations for ot/simot",
+    "text": "Generated-input search. OPRF (4 suites x 3 modes): DeriveKey, blinded elements, evaluated elements and outputs are compared with an "
+            "independent RFC 9497 implementation; the server's proof must verify under the RFC's VerifyProof and the reference prover's proof must be "
+            "accepted by circl's client; outputs must equal FullEvaluate, satisfy VerifyFinalize and be identical for two different blind vectors; every "
+            "single alteration of evaluation[i], proof c/s (through marshal-edit-unmarshal), public key, info or blinded[i] must make Finalize fail. "
+            "zk/dleq proofs must equal the reference GenerateProof byte for byte, verify, and fail after any alteration; statements that are false by "
+            "construction must never verify, whatever proof is presented (prover run with either exponent, proof of the neighbouring true statement, "
+            "c=0, s=0, identity, all-ones, one simulator step). zk/dl and zk/qndleq: honest proofs verify, every altered component, statement element "
+            "or context string is refused, and proofs assembled without a witness or with prover-chosen parameters are refused. ot/simot: the receiver "
+            "obtains m_choice and its key fails on the other ciphertext. Exploration is the right level: the domain is unbounded and each case has an exact oracle.",
+    "note": "on the pinned tree zk/qndleq Proof{Z:7,C:0,SecParam:0}.Verify is true for every statement (key C16/qndleq/false-statement-verifies/prover-chosen-secparam); "
+            "the RFC 9497 reference shares circl's group arithmetic by design; zk/dl and zk/qndleq have no independent reference (their transcript formats are circl's own), "
+            "they are checked by metamorphic and adversarial relations only; never establishes absence",
 }
